@@ -200,6 +200,27 @@ impl<'a> VisitMut for AttrStrip<'a> {
         self.filter(&mut i.attrs, false);
         visit_mut::visit_local_mut(self, i);
     }
+    fn visit_block_mut(&mut self, b: &mut syn::Block) {
+        // R0: a statement under `#[cfg(feature = "verif")]` (a verification hook of /verif, see MANIFEST.hooks) does not
+        // exist when the guard is off: the verified text is the guard-off code
+        let is_hook = |attrs: &Vec<syn::Attribute>| attrs.iter().any(|a| {
+            a.path().is_ident("cfg") && norm(&a.meta.to_token_stream()).contains("feature=\"verif\"")
+        });
+        let before = b.stmts.len();
+        b.stmts.retain(|st| match st {
+            syn::Stmt::Expr(Expr::If(i), _) => !is_hook(&i.attrs),
+            syn::Stmt::Expr(Expr::Block(i), _) => !is_hook(&i.attrs),
+            syn::Stmt::Expr(Expr::Call(i), _) => !is_hook(&i.attrs),
+            syn::Stmt::Expr(Expr::MethodCall(i), _) => !is_hook(&i.attrs),
+            syn::Stmt::Local(l) => !is_hook(&l.attrs),
+            _ => true,
+        });
+        if b.stmts.len() != before {
+            self.log.push(json!({"rule":"R0","file":self.file,"line":0,
+                "what":format!("{} statement(s) under #[cfg(feature = \"verif\")] dropped (guard-off text)", before - b.stmts.len())}));
+        }
+        visit_mut::visit_block_mut(self, b);
+    }
     fn visit_expr_mut(&mut self, e: &mut Expr) {
         // attributes on expressions (e.g. #[allow(..)]) are dropped
         match e {
